@@ -485,6 +485,7 @@ def _run(mod, args, seed, known, known_open, scratch_root):
         nt_extra += r["nt_extra"]
         ps = per_sub.setdefault(r["sub"], {"evaluations": 0, "wall_s": 0.0})
         ps["evaluations"] += r["evaluations"]
+        ps["_extra"] = ps.get("_extra", 0) + r["nt_extra"]
         ps["wall_s"] = round(max(ps["wall_s"], r["wall"]), 2)
         if r["shard"] == 0:
             for s_ in r["samples"][:2]:
@@ -493,7 +494,7 @@ def _run(mod, args, seed, known, known_open, scratch_root):
         violations.extend(r["violations"])
     for name in per_sub:
         per_sub[name]["distinct_nontrivial"] = sum(
-            1 for (s_, _) in nt if s_ == name)
+            1 for (s_, _) in nt if s_ == name) + per_sub[name].pop("_extra", 0)
 
     # ---- violations -> replay files ----
     seen = {}
